@@ -1,3 +1,145 @@
-/- C06 property theorems (not written yet) -/
+/-
+C06 — every HTTP header serialiser is inverted by its parser.
+Property theorems only (helper lemmas live in Lemmas/Http.lean, Lemmas/Date.lean).
+
+Conventions: text is `List Char`; `parse (dump v) = .ok v` where the dumper / parser can raise.
+Where the property's quantifier excludes CR/LF but the codec does not need that, the theorem is
+stated for *all* text (stronger). Every remaining hypothesis is a decidable predicate, shown
+satisfiable by an `example` and necessary by a `_needed` witness.
+-/
+import WzVerif.Lemmas.Http
 namespace Wz.Props.C06
+open Wz Wz.Http
+
+/-! ### the hand-modelled regex shapes are those of the live patterns -/
+
+/-- The regexes whose *shape* (not only character classes) is modelled by hand still have the source
+text the model was written for. A change of any of them breaks this obligation. -/
+theorem regex_sources_pinned :
+    Gen.Http.parameterKeyRe = "([\\w!#$%&'*+\\-.^`|~]+)=" ∧
+    Gen.Http.parameterTokenValueRe = "[\\w!#$%&'*+\\-.^`|~]+" ∧
+    Gen.Http.charsetValueRe = "([\\w!#$%&*+\\-.^`|~]*)'[\\w!#$%&*+\\-.^`|~]*'([\\w!#$%&'*+\\-.^`|~]+)" ∧
+    Gen.Http.continuationRe = "\\*(\\d+)$" ∧
+    Gen.Http.plainIntRe = "-?\\d+" ∧
+    Gen.Http.qValueRe = "-?\\d+(\\.\\d+)?" ∧
+    Gen.Http.etagRe = "([Ww]/)?(?:\"(.*?)\"|(.*?))(?:\\s*,\\s*|$)" ∧
+    Gen.Http.etagReFlags = 32 := by
+  decide
+
+/-- The literal sets the parsers consult are the ones the model assumes: the RFC 2231 charset
+allow-list (identical in `parse_options_header` and `parse_dict_header`), the two escapes skipped
+inside a quoted parameter value, and the digest keys that are always quoted. -/
+theorem literal_sets_pinned :
+    Gen.Http.safeEncodingsOptions = [["ascii", "iso-8859-1", "us-ascii", "utf-8"]] ∧
+    Gen.Http.safeEncodingsDict = Gen.Http.safeEncodingsOptions ∧
+    Gen.Http.optionEscapes = [["\\\"", "\\\\"]] ∧
+    Gen.Http.digestQuoted = [["domain", "nonce", "opaque", "qop", "realm"]] := by
+  decide
+
+/-- `_token_chars` is exactly the RFC 9110 `tchar` set, the parameter-key / token-value regex
+classes coincide with it, and nothing above U+00FF is in any of them (so a token never contains
+`"`, `\`, `,`, `;`, `=`, or white space). `decide` over the complete regenerated tables. -/
+theorem token_classes :
+    Gen.Http.tokenHigh = false ∧ Gen.Http.tokenMulti = false ∧
+    Gen.Http.paramKeyHigh = false ∧ Gen.Http.paramTokHigh = false ∧
+    Gen.Http.paramKeyCls = Gen.Http.tokenTbl ∧ Gen.Http.paramTokCls = Gen.Http.tokenTbl ∧
+    (∀ n, n < 256 → (tbl Gen.Http.tokenTbl n = true ↔
+      ((48 ≤ n ∧ n ≤ 57) ∨ (65 ≤ n ∧ n ≤ 90) ∨ (97 ≤ n ∧ n ≤ 122) ∨
+        n ∈ [33, 35, 36, 37, 38, 39, 42, 43, 45, 46, 94, 95, 96, 124, 126]))) := by
+  refine ⟨by decide, by decide, by decide, by decide, by decide +kernel, by decide +kernel, ?_⟩
+  decide +kernel
+
+/-! ### quoted strings -/
+
+/-- `unquote_header_value(quote_header_value(v, allow_token)) == v` for every string `v`
+(all of Unicode, CR/LF included) and both settings of `allow_token`. -/
+theorem unquote_quote (v : Str) (allowToken : Bool) :
+    unquoteHeaderValue (quoteHeaderValue v allowToken) = v :=
+  unquote_quote_any v allowToken
+
+example : unquoteHeaderValue (quoteHeaderValue ['\\', '"', ' ', 'a'] true) = ['\\', '"', ' ', 'a'] := by decide
+
+/-- The backslash must be escaped *before* the quote: a dumper that only escaped `"` would break
+the pairing on `\"` (what the detection self-test mutates). -/
+theorem unquote_quote_needs_backslash_escape :
+    unquoteHeaderValue ('"' :: replace1 '"' ['\\', '"'] ['a', '\\', '\\', 'b'] ++ ['"']) ≠ ['a', '\\', '\\', 'b'] := by
+  decide
+
+/-! ### comma lists and sets -/
+
+/-- `parse_list_header(dump_header(items)) == items` for every list of strings (any Unicode,
+empty strings, empty list). -/
+theorem parseList_dump (items : List Str) : parseListHeader (dumpHeaderList items) = items :=
+  parseList_dump_any items
+
+example : parseListHeader (dumpHeaderList [[], ['a'], ['b', ',', '"', '\\', ' ']]) = [[], ['a'], ['b', ',', '"', '\\', ' ']] := by
+  decide
+
+/-- `parse_set_header(HeaderSet(items).to_header())` has the same `_headers` list (hence the same
+case-folded set) for every list of strings. -/
+theorem parseSet_dump (items : List Str) : parseSetHeader (headerSetToHeader items) = items := by
+  unfold parseSetHeader headerSetToHeader
+  have h := parseList_dump_any items
+  unfold dumpHeaderList at h
+  split
+  · next he =>
+    cases items with
+    | nil => rfl
+    | cons v vs =>
+      -- a non-empty list never dumps to the empty string
+      exfalso
+      rw [List.isEmpty_iff] at he
+      rw [he] at h
+      simp [parseListHeader, parseHttpList, httpListGo] at h
+  · exact h
+
+example : parseSetHeader (headerSetToHeader [['f', 'o', 'o'], ['B', 'a', 'r', ' ', 'x']]) = [['f', 'o', 'o'], ['B', 'a', 'r', ' ', 'x']] := by
+  decide
+
+/-- normal form for list headers: re-serialising what the parser returned and parsing again is the
+identity on parser images — here for *arbitrary* header text `h`. -/
+theorem parseList_normal_form (h : Str) :
+    parseListHeader (dumpHeaderList (parseListHeader h)) = parseListHeader h :=
+  parseList_dump_any _
+
+theorem parseSet_normal_form (h : Str) :
+    parseSetHeader (headerSetToHeader (parseSetHeader h)) = parseSetHeader h :=
+  parseSet_dump _
+
+/-! ### key=value dicts -/
+
+/-- domain of dict keys: non-empty token without `*` -/
+abbrev KeyOk := Wz.Http.KeyOk
+
+/-- `parse_dict_header(dump_header(d)) == d` (same keys, same order, same values) for every dict
+with distinct non-empty token keys free of `*`; values are `None` or arbitrary strings. -/
+theorem parseDict_dump (d : Dict (Option Str))
+    (hk : ∀ x ∈ d, KeyOk x.1 = true) (hnd : (d.map (·.1)).Nodup) :
+    (dumpHeaderDict d >>= parseDictHeader) = .ok d :=
+  parseDict_dump_any d hk hnd
+
+example : (∀ x ∈ [(['a'], some ['b', ' ', '"']), (['c', '-', 'd'], none), (['e'], some [])], KeyOk x.1 = true)
+    ∧ ([(['a'], some ['b', ' ', '"']), (['c', '-', 'd'], (none : Option Str)), (['e'], some [])].map (·.1)).Nodup := by
+  decide
+
+/-- the key must be non-empty: `dump_header` indexes `key[-1]` -/
+theorem parseDict_dump_needs_nonempty_key :
+    dumpHeaderDict [([], some ['x'])] = .error "IndexError" := by decide
+
+/-- the key must be a token: a comma in the key splits the item -/
+theorem parseDict_dump_needs_token_key :
+    (dumpHeaderDict [(['a', ',', 'b'], some ['x'])] >>= parseDictHeader) ≠ .ok [(['a', ',', 'b'], some ['x'])] := by
+  decide
+
+/-- the key must not end in `*`: the value is then written unquoted and read as an RFC 2231 value -/
+theorem parseDict_dump_needs_no_star :
+    (dumpHeaderDict [(['a', '*'], some ['x', ' ', 'y'])] >>= parseDictHeader) ≠ .ok [(['a', '*'], some ['x', ' ', 'y'])] := by
+  decide
+
+/-- keys must be distinct (a Python dict guarantees it; the association-list model must ask) -/
+theorem parseDict_dump_needs_distinct :
+    (dumpHeaderDict [(['a'], some ['1']), (['a'], some ['2'])] >>= parseDictHeader)
+      ≠ .ok [(['a'], some ['1']), (['a'], some ['2'])] := by
+  decide
+
 end Wz.Props.C06
